@@ -146,6 +146,13 @@ fn err_json(e: &Error) -> Value {
 }
 
 fn with_deadline<F: FnOnce() -> Value + Send + 'static>(ms: u64, f: F) -> Value {
+    if ms == 0 {
+        // same thread, no deadline: consecutive compilations share whatever per-thread state the library keeps (C05)
+        return match std::panic::catch_unwind(std::panic::AssertUnwindSafe(f)) {
+            Ok(v) => v,
+            Err(_) => json!({"status": "panic", "panic": LAST_PANIC.lock().unwrap().clone()}),
+        };
+    }
     let (tx, rx) = mpsc::channel();
     std::thread::Builder::new()
         .stack_size(8 << 20)
